@@ -25,6 +25,7 @@ import (
 func (process *Process) SpawnThenTransitionNP(re *RuntimeEnvironment) {
 	// Increment ProcessCount atomically
 	atomic.AddUint64(&re.processCount, 1)
+	verifSpawn(process)
 
 	if re.UseMonitor {
 		// notify monitor about new process
@@ -44,6 +45,7 @@ func (process *Process) transitionLoopNP(re *RuntimeEnvironment) {
 	// To slow down the execution speed
 	time.Sleep(re.Delay)
 
+	verifGate(process, re)
 	process.Body.TransitionNP(process, re)
 }
 
@@ -66,8 +68,10 @@ func TransitionBySendingNP(process *Process, toChan chan Message, continuationFu
 			// Handle timeout event
 			return
 		case cm := <-process.Providers[0].ControlChannel:
+			verifCtlRecv(process, process.Providers[0].ControlChannel, cm)
 			handleControlMessageNP(process, cm, re)
 		case toChan <- sendingMessage:
+			verifSend(process, toChan, sendingMessage)
 			// Sending a message to toChan
 			continuationFunc()
 		}
@@ -88,8 +92,10 @@ func TransitionByReceivingNP(process *Process, clientChan chan Message, processM
 			// Received cancellation request, so stop
 			return
 		case cm := <-process.Providers[0].ControlChannel:
+			verifCtlRecv(process, process.Providers[0].ControlChannel, cm)
 			handleControlMessageNP(process, cm, re)
 		case receivedMessage := <-clientChan:
+			verifRecv(process, clientChan, receivedMessage)
 			// Acting as a client by consuming a message from some channel
 			processMessageFunc(receivedMessage)
 		}
@@ -110,6 +116,7 @@ func TransitionInternallyNP(process *Process, internalFunction func(), re *Runti
 	} else {
 		select {
 		case cm := <-process.Providers[0].ControlChannel:
+			verifCtlRecv(process, process.Providers[0].ControlChannel, cm)
 			handleControlMessageNP(process, cm, re)
 		default:
 			internalFunction()
@@ -577,9 +584,11 @@ func (f *ForwardForm) TransitionNP(process *Process, re *RuntimeEnvironment) {
 	// TransitionAsSpecialForm(process, f.from_c.ControlChannel, forwardRule, controlMessage, re)
 	select {
 	case cm := <-process.Providers[0].ControlChannel:
+		verifCtlRecv(process, process.Providers[0].ControlChannel, cm)
 		// todo check if this should only happen if len(process.OtherProviders) == 0
 		handleControlMessageNP(process, cm, re)
 	case f.from_c.ControlChannel <- controlMessage:
+		verifCtlSend(process, f.from_c.ControlChannel, controlMessage)
 		forwardRule()
 	}
 }
@@ -795,6 +804,7 @@ func (f *PrintForm) TransitionNP(process *Process, re *RuntimeEnvironment) {
 	printRule := func() {
 		if !re.Quiet {
 			fmt.Printf("> %s\n", f.label.String())
+			verifPrint(process, f.label.String())
 		}
 		process.finishedRule(PRINT, "[print]", "", re)
 
